@@ -126,12 +126,29 @@ theorem inDecBand_iff (dec δ x : ℝ) :
   · rintro ⟨⟨h1, h2⟩, h3, h4⟩; exact ⟨⟨by linarith, by linarith⟩, h1, h4⟩
   · rintro ⟨⟨h1, h2⟩, h3, h4⟩; exact ⟨⟨h3, by linarith⟩, by linarith, h4⟩
 
-theorem dRAhalf_le (dec δ : ℝ) : dRAhalf dec δ ≤ 2 * Real.pi := by
-  simp [dRAhalf]
+theorem dRAhalf_of_ne (dec δ : ℝ) (hc : cosfact dec δ ≠ 0) :
+    dRAhalf dec δ = min (2 * Real.pi) |δ / cosfact dec δ| := by
+  unfold dRAhalf
+  rcases lt_or_gt_of_ne hc with h | h
+  · simp [h]
+  · simp [h, not_lt.mpr (le_of_lt h)]
 
-theorem dRAhalf_pos (dec δ : ℝ) (hδ : 0 < δ) (hc : cosfact dec δ ≠ 0) : 0 < dRAhalf dec δ := by
-  simp only [dRAhalf, minF_real, twoPi_real, absF_real, lt_min_iff]
-  exact ⟨by have := Real.pi_pos; linarith, abs_pos.mpr (div_ne_zero (ne_of_gt hδ) hc)⟩
+/-- a band touching a pole (exact `cosfact = 0`): the whole RA ring -/
+theorem dRAhalf_of_zero (dec δ : ℝ) (hc : cosfact dec δ = 0) : dRAhalf dec δ = 2 * Real.pi := by
+  unfold dRAhalf
+  simp [hc]
+
+theorem dRAhalf_le (dec δ : ℝ) : dRAhalf dec δ ≤ 2 * Real.pi := by
+  by_cases hc : cosfact dec δ = 0
+  · rw [dRAhalf_of_zero dec δ hc]
+  · rw [dRAhalf_of_ne dec δ hc]; exact min_le_left _ _
+
+theorem dRAhalf_pos (dec δ : ℝ) (hδ : 0 < δ) : 0 < dRAhalf dec δ := by
+  have hpi : (0 : ℝ) < 2 * Real.pi := by have := Real.pi_pos; linarith
+  by_cases hc : cosfact dec δ = 0
+  · rw [dRAhalf_of_zero dec δ hc]; exact hpi
+  · rw [dRAhalf_of_ne dec δ hc]
+    exact lt_min hpi (abs_pos.mpr (div_ne_zero (ne_of_gt hδ) hc))
 
 theorem cosfact_le_one (dec δ : ℝ) : cosfact dec δ ≤ 1 := by
   simp only [cosfact, minF_real, TranscReal.cos_def]
@@ -148,13 +165,31 @@ theorem cosfact_nonneg (dec δ : ℝ) (hδ : 0 ≤ δ)
     · exact le_min (by linarith [hdec.1]) (by have := Real.pi_pos; linarith)
     · exact min_le_right _ _
 
-theorem dRAhalf_ge_delta (dec δ : ℝ) (hδ : 0 < δ) (hδ' : δ ≤ 2 * Real.pi) (hc : 0 < cosfact dec δ) :
+/-- the band of a source on the sphere touches a pole iff `|dec| + δ ≥ π/2`; then `cosfact = 0` -/
+theorem cosfact_zero_of_touching (dec δ : ℝ) (hδ : 0 < δ)
+    (hdec : -(Real.pi / 2) ≤ dec ∧ dec ≤ Real.pi / 2) (hp : Real.pi / 2 ≤ |dec| + δ) :
+    cosfact dec δ = 0 := by
+  have hnn := cosfact_nonneg dec δ (le_of_lt hδ) hdec
+  apply le_antisymm _ hnn
+  simp only [cosfact, minF_real, TranscReal.cos_def, decMinus, decPlus, maxF_real, halfPi_real]
+  rcases le_or_gt 0 dec with h | h
+  · -- upper edge clipped
+    rw [abs_of_nonneg h] at hp
+    rw [min_eq_right (by linarith : Real.pi / 2 ≤ dec + δ), Real.cos_pi_div_two]
+    exact min_le_right _ _
+  · rw [abs_of_neg h] at hp
+    rw [max_eq_left (by linarith : dec - δ ≤ -(Real.pi / 2)), Real.cos_neg, Real.cos_pi_div_two]
+    exact min_le_left _ _
+
+theorem dRAhalf_ge_delta (dec δ : ℝ) (hδ : 0 < δ) (hδ' : δ ≤ 2 * Real.pi) (hc : 0 ≤ cosfact dec δ) :
     δ ≤ dRAhalf dec δ := by
-  simp only [dRAhalf, minF_real, twoPi_real, absF_real]
-  apply le_min hδ'
-  rw [abs_of_pos (div_pos hδ hc), le_div_iff₀ hc]
-  have := cosfact_le_one dec δ
-  nlinarith
+  rcases eq_or_lt_of_le hc with h0 | hpos
+  · rw [dRAhalf_of_zero dec δ h0.symm]; exact hδ'
+  · rw [dRAhalf_of_ne dec δ (ne_of_gt hpos)]
+    apply le_min hδ'
+    rw [abs_of_pos (div_pos hδ hpos), le_div_iff₀ hpos]
+    have := cosfact_le_one dec δ
+    nlinarith
 
 theorem inBox_iff (s dec δ e x : ℝ) :
     inBox s dec δ e x = true ↔
@@ -165,11 +200,27 @@ theorem inRABand_iff (s dec δ e : ℝ) (h : |e - s| ≤ 2 * Real.pi) :
     inRABand s dec δ e = true ↔ circDist (e - s) < dRAhalf dec δ := by
   simp only [inRABand, decide_eq_true_eq, raDistMod_eq s e h]
 
-theorem self_selected (s dec δ : ℝ) (hδ : 0 < δ) (hdec : -(Real.pi / 2) < dec ∧ dec < Real.pi / 2)
-    (hc : cosfact dec δ ≠ 0) : inBox s dec δ s dec = true := by
+theorem self_selected (s dec δ : ℝ) (hδ : 0 < δ) (hdec : -(Real.pi / 2) < dec ∧ dec < Real.pi / 2) :
+    inBox s dec δ s dec = true := by
   rw [inBox_iff]
   refine ⟨?_, by simpa using hδ, hdec.1, hdec.2⟩
   rw [sub_self, circDist_zero]
-  exact dRAhalf_pos dec δ hδ hc
+  exact dRAhalf_pos dec δ hδ
+
+/-- **band touching a pole**: the RA window is the whole ring, only the (clipped) declination band
+decides -/
+theorem inBox_touching_pole (s dec δ e x : ℝ) (hδ : 0 < δ)
+    (hdec : -(Real.pi / 2) ≤ dec ∧ dec ≤ Real.pi / 2) (hp : Real.pi / 2 ≤ |dec| + δ) :
+    (inBox s dec δ e x = true ↔ (|x - dec| < δ ∧ -(Real.pi / 2) < x ∧ x < Real.pi / 2)) ∧
+    (∀ (_ : |e - s| ≤ 2 * Real.pi), inRABand s dec δ e = true) := by
+  have h0 := dRAhalf_of_zero dec δ (cosfact_zero_of_touching dec δ hδ hdec hp)
+  have hlt : circDist (e - s) < 2 * Real.pi := by
+    have := circDist_le_pi (e - s); have := Real.pi_pos; linarith
+  constructor
+  · rw [inBox_iff, h0]
+    exact ⟨fun h => h.2, fun h => ⟨hlt, h⟩⟩
+  · intro h
+    rw [inRABand_iff s dec δ e h, h0]
+    exact hlt
 
 end C05Crit
